@@ -96,9 +96,18 @@ struct CollPath {
     n: u64,
 }
 
+/// The page selector of the integer-key endpoints is a 128-bit marker that
+/// straddles 2^64 (`key + KEY_OFFSET`), as an id space wider than 64 bits would.
 #[derive(Serialize, Deserialize)]
 struct SelKey {
-    last: u64,
+    last: u128,
+}
+const KEY_OFFSET: u128 = (1u128 << 64) - 20;
+fn sel_of(key: u64) -> SelKey {
+    SelKey { last: key as u128 + KEY_OFFSET }
+}
+fn key_of(sel: &SelKey) -> u64 {
+    (sel.last - KEY_OFFSET) as u64
 }
 
 fn coll<'a>(rqctx: &'a RequestContext<Ctx>, n: u64) -> Result<&'a Coll, HttpError> {
@@ -116,14 +125,14 @@ async fn list_asc(
     let c = coll(&rqctx, path.into_inner().n)?;
     let items: Vec<Item> = match &p.page {
         WhichPage::First(_) => c.by_key.values().take(limit).map(|i| (**i).clone()).collect(),
-        WhichPage::Next(SelKey { last }) => c
+        WhichPage::Next(sel) => c
             .by_key
-            .range((Bound::Excluded(*last), Bound::Unbounded))
+            .range((Bound::Excluded(key_of(sel)), Bound::Unbounded))
             .take(limit)
             .map(|(_, i)| (**i).clone())
             .collect(),
     };
-    Ok(HttpResponseOk(ResultsPage::new(items, &EmptyScanParams {}, |i: &Item, _| SelKey { last: i.key })?))
+    Ok(HttpResponseOk(ResultsPage::new(items, &EmptyScanParams {}, |i: &Item, _| sel_of(i.key))?))
 }
 
 #[endpoint { method = GET, path = "/desc/{n}" }]
@@ -137,15 +146,15 @@ async fn list_desc(
     let c = coll(&rqctx, path.into_inner().n)?;
     let items: Vec<Item> = match &p.page {
         WhichPage::First(_) => c.by_key.values().rev().take(limit).map(|i| (**i).clone()).collect(),
-        WhichPage::Next(SelKey { last }) => c
+        WhichPage::Next(sel) => c
             .by_key
-            .range((Bound::Unbounded, Bound::Excluded(*last)))
+            .range((Bound::Unbounded, Bound::Excluded(key_of(sel))))
             .rev()
             .take(limit)
             .map(|(_, i)| (**i).clone())
             .collect(),
     };
-    Ok(HttpResponseOk(ResultsPage::new(items, &EmptyScanParams {}, |i: &Item, _| SelKey { last: i.key })?))
+    Ok(HttpResponseOk(ResultsPage::new(items, &EmptyScanParams {}, |i: &Item, _| sel_of(i.key))?))
 }
 
 // ---- two sort keys, four sort modes (examples/pagination-multiple-sorts.rs)
